@@ -489,8 +489,11 @@ fn main() {
                     rep.merge(r);
                 }
                 _ => {
-                    eprintln!("MACHINERY-ERROR a serial shard died: {:?}", o.status);
-                    rep.notes.insert("machinery_errors".into(), 1);
+                    // a shard that dies (signal / abort) while running the library's band code is a
+                    // crash verdict, not a machinery failure
+                    let sig = format!("C08|crash|a serial shard died while running band code: {:?}", o.status);
+                    *rep.sig_counts.entry(sig.clone()).or_insert(0) += 1;
+                    rep.viols.push(Viol { space: "serial".into(), idx: 0, sig, detail: json!({"status": format!("{:?}", o.status), "profile": profile}) });
                 }
             }
         }
